@@ -599,6 +599,18 @@ def run_hybrid_check(chk, which, props_file, extra_models):
             if which == "C08":
                 chk.violation("calendar", {"month": m}, {"first": f, "last": l, "days": d}, f"last_month_hour = {closed_lmh(m)}, first = {closed_lmh(m-1)+1}")
                 break
+    CUML = [0, 744, 1440, 2184, 2904, 3648, 4368, 5112, 5856, 6576, 7320, 8040, 8784]
+
+    def lmh_leap(m):
+        return 8784 * ((m - 1) // 12) + CUML[(m - 1) % 12 + 1]
+    for m, f, l, d in res.get("calendar_leap", []):
+        if (l != lmh_leap(m) or f != lmh_leap(m - 1) + 1 or d * 24 != lmh_leap(m) - lmh_leap(m - 1)) and which == "C08":
+            chk.violation("calendar", {"month": m, "load_years": [2020]}, {"first": f, "last": l, "days": d}, f"leap-year calendar: last_month_hour = {lmh_leap(m)}, first = {lmh_leap(m-1)+1}")
+            break
+    if which == "C08" and res.get("calendar_multi") not in (None, [17569, 17520]):
+        # the witness of Props/C08.v C08_multi_year_calendar_refuted (an observation about lists of load years) is a statement about the code
+        chk.broken.append({"name": "correspondence C08: the multi-year calendar witness of C08_multi_year_calendar_refuted no longer matches the implementation",
+                           "detail": json.dumps(res.get("calendar_multi"))})
     nontrivial = 0
     if which == "C06":
         for c, o in zip(cases, outs):
